@@ -68,6 +68,8 @@ def quadraticCvar (lam tol precision : α) (maxIter : Nat) (cols : List (List α
   let bases := cols.map meanR
   let centred := List.zipWith (fun c b => c.map (fun x => x - b)) cols bases
   let negs := centred.map (fun c => c.map (fun x => -x))
+  -- NOTE (known finding F6/K2): this bracket misses the root of `qTarget w = 1/(2 lam)` whenever
+  -- `max x - mean x < 1/(2 lam)`; `quadraticCvarRepaired` below lowers it by the target.
   let lowers := negs.map (fun c => match c with
     | [] => 0
     | y :: ys => minL y ys - tol)
